@@ -988,6 +988,143 @@ add("held-band-index-swap-stmts", "C04",
             for j in k + 1..l {
                 //if au[ j ][ 0 ] > dum {""")])
 
+# second held-out batch: written after the LAST change of the translator, evaluated once, nothing tuned afterwards
+add("held2-mat-get_col-for-to-while", "C03",
+    "Matrix::get_col: `for i in 0..self.rows` -> counter `while`",
+    "same index sequence; self is not modified, `result` only element-wise",
+    [(M_OPS, """        for i in 0..self.rows {
+            result[ i ] = self.mat[ i * self.cols + col ];
+        }""", """        let mut i = 0;
+        while i < self.rows {
+            result[ i ] = self.mat[ i * self.cols + col ];
+            i += 1;
+        }""")])
+add("held2-matarith-mscale-for-to-while", "C03",
+    "&Matrix * scalar: outer `for i in 0..result.rows()` -> counter `while` whose bound reads the matrix being filled",
+    "element writes do not change result.rows()",
+    [(M_ARI, """        let mut result = Matrix::<T>::new( self.rows(), self.cols(), T::zero() );
+        for i in 0..result.rows() {
+            for j in 0..result.cols() {
+                result[(i,j)] = self[(i,j)] * scalar;
+            }
+        }""", """        let mut result = Matrix::<T>::new( self.rows(), self.cols(), T::zero() );
+        let mut i = 0;
+        while i < result.rows() {
+            for j in 0..result.cols() {
+                result[(i,j)] = self[(i,j)] * scalar;
+            }
+            i += 1;
+        }""")])
+add("held2-vec-vsub-guard-not-eq", "C15",
+    "&Vector - &Vector: guard `a != b` -> `!( a == b )`",
+    "usize equality is decidable",
+    [(V_ARI, "        if self.size() != minus.size() { panic!( \"Vector sizes do not agree (-).\" ); }\n        let mut result = Vec::new();", "        if !( self.size() == minus.size() ) { panic!( \"Vector sizes do not agree (-).\" ); }\n        let mut result = Vec::new();")])
+add("held2-tri-with_vectors-demorgan", "C05",
+    "Tridiagonal::with_vectors: guard `a != n-1 || b != n-1` -> `!( a == n-1 && b == n-1 )`",
+    "De Morgan on usize comparisons; the operands (incl. the checked n - 1) are evaluated in the same order under short-circuiting",
+    [(TRI, """        let n = main.size();
+        if sub.size() != n - 1 || sup.size() != n - 1 { """, """        let n = main.size();
+        if !( sub.size() == n - 1 && sup.size() == n - 1 ) { """)])
+add("held2-band-det-rename-expand", "C04",
+    "Banded::det: `dd` renamed `prod`, `dd *= x` -> `prod = prod * x`",
+    "alpha-renaming; MulAssign on the element types is self = self * rhs",
+    [(BND, """        let mut dd = d.clone();
+        for i in 0..self.n {
+            //dd *= au[ i ][ 0 ];
+            dd *= au[(i, 0)];
+        }
+        dd""", """        let mut prod = d.clone();
+        for i in 0..self.n {
+            prod = prod * au[(i, 0)];
+        }
+        prod""")])
+add("held2-sp-to_dense-inner-while", "C06",
+    "Sparse::to_dense: inner `for k in col_start[j]..col_start[j+1]` -> `let mut k = col_start[j]; while k < col_start[j+1] { ..; k += 1; }`",
+    "the two bounds are read in the same order (lower first); self is not modified, so the upper bound is invariant",
+    [(SPR, """            for k in self.col_start[ j ]..self.col_start[ j + 1 ] {
+                dense[( self.row_index[ k ], j )] = self.val[ k ];
+            }""", """            let mut k = self.col_start[ j ];
+            while k < self.col_start[ j + 1 ] {
+                dense[( self.row_index[ k ], j )] = self.val[ k ];
+                k += 1;
+            }""")])
+add("held2-poly-pmul-let-index", "C11",
+    "Polynomial * Polynomial: the index `i + j` bound by `let ij = i + j;`",
+    "names a pure usize expression used three times",
+    [(P_ARI, "                product.coeffs[ i + j ] = product.coeffs[ i + j ] + self.coeffs[ i ].clone() * times.coeffs[ j ].clone();", "                let ij = i + j;\n                product.coeffs[ ij ] = product.coeffs[ ij ] + self.coeffs[ i ].clone() * times.coeffs[ j ].clone();")])
+add("held2-newton-cmplx-minus-assign", "C17",
+    "Newton<Cmplx>::solve: `current -= dx` -> `current = current - dx`",
+    "SubAssign for Complex is defined by the same component formulas as Sub (C13 assign_eq_binary)",
+    [(NWT, """            let dx = func(current) / deriv;
+            current -= dx;
+            if dx.abs() <= self.tol {
+                return Ok( current );
+            }
+        }
+        Err( current ) 
+    }
+}
+
+impl Newton<Vec64>""", """            let dx = func(current) / deriv;
+            current = current - dx;
+            if dx.abs() <= self.tol {
+                return Ok( current );
+            }
+        }
+        Err( current ) 
+    }
+}
+
+impl Newton<Vec64>""")])
+add("held2-mesh-trapezium-for-to-while", "C19",
+    "Mesh1D::trapezium: `for node in 0..self.nodes.size()-1` -> counter `while` (the bound contains a checked subtraction)",
+    "the bound is invariant (self is not modified); if size() = 0 the subtraction panics at the first evaluation in both versions",
+    [(MSH, """        let mut sum: f64 = 0.0;
+        for node in 0..self.nodes.size()-1 {
+            let dx = self.nodes[ node + 1 ] - self.nodes[ node ];
+            sum += 0.5 * dx * ( self.vars[ node ][ var ] 
+                              + self.vars[ node + 1 ][ var ] );
+        }""", """        let mut sum: f64 = 0.0;
+        let mut node = 0;
+        while node < self.nodes.size()-1 {
+            let dx = self.nodes[ node + 1 ] - self.nodes[ node ];
+            sum += 0.5 * dx * ( self.vars[ node ][ var ] 
+                              + self.vars[ node + 1 ][ var ] );
+            node += 1;
+        }""")])
+add("held2-solve-solve_lu-inner-while", "C01",
+    "solve_lu: forward substitution `for k in 0..i` -> `let mut k = 0; while k < i { ..; k += 1; }`",
+    "the bound is the outer loop variable",
+    [(M_SOL, """            for k in 0..i {
+                let xk = x[ k ];
+                x[ i ] -= self[(i,k)] * xk;
+            }""", """            let mut k = 0;
+            while k < i {
+                let xk = x[ k ];
+                x[ i ] -= self[(i,k)] * xk;
+                k += 1;
+            }""")])
+add("held2-vec-norm_p-let-return", "C15 C03",
+    "Vector<f64>::norm_p: the exponent bound by `let inv = 1.0 / p;` and the result returned by `return`",
+    "the division happens after the loop in both versions; same float operations",
+    [(V_F64, "        f64::powf( result, 1.0/p )", "        let inv = 1.0/p;\n        return f64::powf( result, inv );")])
+add("held2-sp-scale-helper-fn", "C07",
+    "Sparse::scale: the loop body extracted into a private helper `fn scale_one(&mut self, k: usize, v: T)`",
+    "the helper performs the same read-multiply-write on the same slot",
+    [(SPR, """        for k in 0..self.nonzero {
+            self.val[ k ] *= *value;
+        }
+    }
+""", """        for k in 0..self.nonzero {
+            self.scale_one( k, *value );
+        }
+    }
+
+    fn scale_one( &mut self, k: usize, v: T ) {
+        self.val[ k ] *= v;
+    }
+""")])
+
 # ------------------------------------------------------------------------------------------------ negative set
 # NOT harmless: each of these changes behaviour while looking like one of the canonicalised shapes.  Every one must still be
 # REPORTED (translator refusal or broken equality lemma) -- `run.py --set negative` checks that none is silent.
